@@ -101,7 +101,7 @@ Definition bpe_of (mx : states) (bits : nat) : nat :=
   get_bytes_per_entry (fst (get_len_and_meta mx bits)) (snd (get_len_and_meta mx bits)).
 
 Definition wf_entry (mx : states) (bits : nat) (local : states) (buf : list byte) : Prop :=
-  (2 <= bits)%nat /\ states_num local <= states_num mx /\ length buf = div_ceil bits (per_byte local).
+  (1 <= bits)%nat /\ states_num local <= states_num mx /\ length buf = div_ceil bits (per_byte local).
 
 Lemma zeros_length n : length (zeros n) = n. Proof. apply repeat_length. Qed.
 
@@ -151,13 +151,20 @@ Qed.
 (* one recorded change: (time index delta, kind of the value, packed value) *)
 Definition sentry := (N * states * list byte)%type.
 
-Definition enc_entry (e : sentry) : list byte :=
-  let '(delta, local, packed) := e in leb_write (delta * 4 + states_num local) ++ packed.
+(* 1-bit signals store the value in the leb128 word itself (4 bits), wider signals the kind (2 bits) followed by
+   the packed value *)
+Definition enc_entry (bits : nat) (e : sentry) : list byte :=
+  let '(delta, local, packed) := e in
+  if Nat.eqb bits 1 then leb_write (delta * 16 + hd 0 packed)
+  else leb_write (delta * 4 + states_num local) ++ packed.
 
-Definition enc_stream (es : list sentry) : list byte := concat (map enc_entry es).
+Definition enc_stream (bits : nat) (es : list sentry) : list byte := concat (map (enc_entry bits) es).
 
 Definition wf_sentry (mx : states) (bits : nat) (e : sentry) : Prop :=
-  let '(delta, local, packed) := e in wf_entry mx bits local packed /\ delta * 4 + states_num local < 2 ^ 32.
+  let '(delta, local, packed) := e in
+  wf_entry mx bits local packed /\
+  (if Nat.eqb bits 1 then delta * 16 + hd 0 packed < 2 ^ 32 /\ hd 0 packed <= 8 /\ local = from_value (hd 0 packed)
+   else delta * 4 + states_num local < 2 ^ 32).
 
 (* accumulate the decoded entries of a stream (time index = running sum of the deltas) *)
 Fixpoint load_spec (mx : states) (bits : nat) (es : list sentry) (t : N) (canon : list (N * list byte))
@@ -171,7 +178,7 @@ Fixpoint load_spec (mx : states) (bits : nat) (es : list sentry) (t : N) (canon 
 Definition acc_rep (bpe : nat) (acc : load_acc) (canon : list (N * list byte)) : Prop :=
   la_idx acc = map fst canon /\ la_bytes acc = concat (map snd canon) /\ entries_ok bpe canon.
 
-Lemma bpe_pos mx bits : (2 <= bits)%nat -> (0 < bpe_of mx bits)%nat.
+Lemma bpe_pos mx bits : (1 <= bits)%nat -> (0 < bpe_of mx bits)%nat.
 Proof.
   intros H. unfold bpe_of, get_len_and_meta, get_bytes_per_entry, div_ceil. cbn [fst snd].
   destruct (negb _ && _); [lia|]. destruct mx; cbn [per_byte]; lia.
@@ -179,41 +186,67 @@ Qed.
 
 Lemma pow32 : 2 ^ 32 = 4294967296. Proof. reflexivity. Qed.
 
+Lemma from_value_meta_sweep :
+  forallb (fun v => (N.lor v (states_num (from_value v) * 64) =? N.lor (states_num (from_value v) * 64) v)) small9 = true.
+Proof. vm_compute. reflexivity. Qed.
+
 Lemma load_fixed_step f e rest t bits mx acc canon :
   wf_sentry mx bits e -> acc_rep (bpe_of mx bits) acc canon ->
   exists acc', acc_rep (bpe_of mx bits) acc'
                  (push_canon canon (t + fst (fst e), wide mx bits (snd (fst e)) (snd e))) /\
-    load_fixed (S f) (enc_entry e ++ rest) t bits mx acc
+    load_fixed (S f) (enc_entry bits e ++ rest) t bits mx acc
     = load_fixed f rest (t + fst (fst e)) bits mx acc' /\ la_strings acc' = la_strings acc.
 Proof.
   destruct e as [[delta local] packed]. intros [Hwf Hlt] (Hi & Hby & Hok). cbn [fst snd].
   pose proof Hwf as (Hb & Hle & Hl).
-  cbn [load_fixed enc_entry]. rewrite <- app_assoc.
-  rewrite leb_roundtrip by (assert (2 ^ 32 < 2 ^ 64) by (apply N.pow_lt_mono_r; lia); lia).
-  unfold u32_wrap. rewrite pow32 in Hlt. rewrite (N.mod_small _ _ Hlt).
-  pose proof (states_num_lt4 local) as Hn.
-  replace ((delta * 4 + states_num local) mod 4) with (states_num local) by lia.
-  replace ((delta * 4 + states_num local) / 4) with delta by lia.
-  rewrite states_of_num_num. cbn [of_option bind].
-  destruct (Nat.eqb_spec bits 1) as [E1|_]; [lia|].
   pose proof (wide_code mx bits local packed Hwf) as Hc.
   pose proof (wide_length mx bits local packed Hwf) as Hwl.
-  unfold bpe_of in *.
-  destruct (get_len_and_meta mx bits) as [len has_meta] eqn:Eg. cbn [fst snd] in *.
-  rewrite app_length. destruct (Nat.ltb_spec (length packed + length rest) (div_ceil bits (per_byte local))) as [Hlt'|_]; [lia|].
-  rewrite <- Hl. rewrite firstn_app, firstn_all, Nat.sub_diag. cbn [firstn]. rewrite app_nil_r.
-  rewrite skipn_app, skipn_all, Nat.sub_diag. cbn [skipn app].
-  destruct (get_len_and_meta local bits) as [local_len local_has_meta] eqn:El.
-  rewrite Hc. cbn [bind].
-  pose proof (push_entry_spec (get_bytes_per_entry len has_meta) canon (t + delta) (wide mx bits local packed)) as Hp.
-  rewrite <- Hby in Hp.
-  assert (Hpos : (0 < get_bytes_per_entry len has_meta)%nat).
-  { pose proof (bpe_pos mx bits Hb) as Hq. unfold bpe_of in Hq. now rewrite Eg in Hq. }
-  specialize (Hp Hpos Hok Hwl).
-  destruct (check_if_changed_and_truncate _ _) as [changed out]. destruct Hp as (Hp1 & Hp2 & Hp3).
-  eexists. split; [|split; [reflexivity|]].
-  - unfold acc_rep. destruct changed; cbn [la_idx la_bytes]; rewrite <- ?Hi in Hp1; repeat split; try assumption; now rewrite Hi in Hp1.
-  - now destruct changed.
+  assert (Hpos : (0 < bpe_of mx bits)%nat) by (apply bpe_pos; exact Hb).
+  pose proof (push_entry_spec (bpe_of mx bits) canon (t + delta) (wide mx bits local packed)) as Hp.
+  rewrite <- Hby in Hp. specialize (Hp Hpos Hok Hwl).
+  cbn [load_fixed enc_entry].
+  destruct (Nat.eqb_spec bits 1) as [E1|E1].
+  - (* one bit: the value travels in the leb128 word *)
+    subst bits. destruct Hlt as (Hlt & Hv8 & Hloc).
+    assert (Hpk : exists v, packed = [v]).
+    { unfold div_ceil in Hl. destruct packed as [|v [|v2 r]]; [cbn in Hl; destruct local; cbn in Hl; lia|eexists; reflexivity|
+        cbn [length] in Hl; destruct local; cbn [per_byte] in Hl; lia]. }
+    destruct Hpk as [v ->]. cbn [hd] in *.
+    rewrite leb_roundtrip by (assert (2 ^ 32 < 2 ^ 64) by (apply N.pow_lt_mono_r; lia); lia).
+    unfold u32_wrap. rewrite pow32 in Hlt. rewrite (N.mod_small _ _ Hlt).
+    replace ((delta * 16 + v) mod 16) with v by lia.
+    replace ((delta * 16 + v) / 16) with delta by lia.
+    cbn [bind].
+    assert (Hw : [N.lor v (states_num (from_value v) * 64)] = wide mx 1 local [v]).
+    { unfold wide, get_len_and_meta, states_eqb, div_ceil. subst local.
+      assert (Hl1 : forall st, ((1 + per_byte st - 1) / per_byte st)%nat = 1%nat) by (intros [| |]; reflexivity).
+      assert (Hm1 : forall st, negb (states_num st =? 0) && Nat.eqb (1 mod per_byte st) 0 = false) by (intros [| |]; reflexivity).
+      rewrite !Hl1, !Hm1. cbn [Nat.eqb Bool.eqb andb hd tl]. f_equal.
+      pose proof from_value_meta_sweep as S. rewrite forallb_forall in S. specialize (S v (le8_in v Hv8)). now apply N.eqb_eq. }
+    unfold bpe_of in *. destruct (get_len_and_meta mx 1) as [len has_meta] eqn:Eg. cbn [fst snd] in *.
+    rewrite Hw.
+    destruct (check_if_changed_and_truncate _ _) as [changed out]. destruct Hp as (Hp1 & Hp2 & Hp3).
+    eexists. split; [|split; [reflexivity|]].
+    + unfold acc_rep. destruct changed; cbn [la_idx la_bytes]; rewrite <- ?Hi in Hp1; repeat split; try assumption; now rewrite Hi in Hp1.
+    + now destruct changed.
+  - rewrite <- app_assoc.
+    rewrite leb_roundtrip by (assert (2 ^ 32 < 2 ^ 64) by (apply N.pow_lt_mono_r; lia); lia).
+    unfold u32_wrap. rewrite pow32 in Hlt. rewrite (N.mod_small _ _ Hlt).
+    pose proof (states_num_lt4 local) as Hn.
+    replace ((delta * 4 + states_num local) mod 4) with (states_num local) by lia.
+    replace ((delta * 4 + states_num local) / 4) with delta by lia.
+    rewrite states_of_num_num. cbn [of_option bind].
+    unfold bpe_of in *.
+    destruct (get_len_and_meta mx bits) as [len has_meta] eqn:Eg. cbn [fst snd] in *.
+    rewrite app_length. destruct (Nat.ltb_spec (length packed + length rest) (div_ceil bits (per_byte local))) as [Hlt'|_]; [lia|].
+    rewrite <- Hl. rewrite firstn_app, firstn_all, Nat.sub_diag. cbn [firstn]. rewrite app_nil_r.
+    rewrite skipn_app, skipn_all, Nat.sub_diag. cbn [skipn app].
+    destruct (get_len_and_meta local bits) as [local_len local_has_meta] eqn:El.
+    rewrite Hc. cbn [bind].
+    destruct (check_if_changed_and_truncate _ _) as [changed out]. destruct Hp as (Hp1 & Hp2 & Hp3).
+    eexists. split; [|split; [reflexivity|]].
+    + unfold acc_rep. destruct changed; cbn [la_idx la_bytes]; rewrite <- ?Hi in Hp1; repeat split; try assumption; now rewrite Hi in Hp1.
+    + now destruct changed.
 Qed.
 
 Lemma leb_read_nil : leb_read [] = None. Proof. reflexivity. Qed.
@@ -221,7 +254,7 @@ Lemma leb_read_nil : leb_read [] = None. Proof. reflexivity. Qed.
 (* load_fixed_len_signal over a whole stream: the canonical entries of load_spec *)
 Theorem load_fixed_stream mx bits : forall es fuel t acc canon,
   Forall (wf_sentry mx bits) es -> acc_rep (bpe_of mx bits) acc canon -> (length es < fuel)%nat ->
-  exists acc', load_fixed fuel (enc_stream es) t bits mx acc = Ok acc' /\
+  exists acc', load_fixed fuel (enc_stream bits es) t bits mx acc = Ok acc' /\
                acc_rep (bpe_of mx bits) acc' (load_spec mx bits es t canon) /\
                la_strings acc' = la_strings acc.
 Proof.
@@ -229,8 +262,8 @@ Proof.
   - destruct fuel as [|f]; [cbn in Hf; lia|]. cbn. exists acc. repeat split; apply Hrep.
   - destruct fuel as [|f]; [cbn in Hf; lia|].
     apply Forall_cons_iff in Hwf as [He Hes].
-    unfold enc_stream. cbn [map concat]. fold (enc_stream es).
-    destruct (load_fixed_step f e (enc_stream es) t bits mx acc canon He Hrep) as (acc1 & Hrep1 & -> & Hs1).
+    unfold enc_stream. cbn [map concat]. fold (enc_stream bits es).
+    destruct (load_fixed_step f e (enc_stream bits es) t bits mx acc canon He Hrep) as (acc1 & Hrep1 & -> & Hs1).
     destruct e as [[delta local] packed]. cbn [fst snd] in *.
     destruct (IH f (t + delta) acc1 _ Hes Hrep1 ltac:(cbn in Hf; lia)) as (acc' & H1 & H2 & H3).
     exists acc'. split; [exact H1|]. split; [exact H2|congruence].
@@ -300,7 +333,7 @@ Qed.
 (* what SignalChangeData::get_value_at needs from an entry: the kind bits, enough bytes, and the
    symbols of the packed value after dropping the padding *)
 Lemma wide_decode mx bits local syms :
-  (2 <= bits)%nat -> length syms = bits -> small_syms local syms -> states_num local <= states_num mx ->
+  (1 <= bits)%nat -> length syms = bits -> small_syms local syms -> states_num local <= states_num mx ->
   let w := wide mx bits local (write_n_state_loop local syms 0 None) in
   let data := if snd (get_len_and_meta mx bits) then tl w else w in
   (mx = Two -> n_state_symbols Two data bits = Ok syms) /\
@@ -351,7 +384,7 @@ Proof. intros -> ->. rewrite skipn_app, skipn_all, Nat.sub_diag. cbn [skipn app]
    value was recorded with and exactly its symbols, whatever the signal's widest kind is and
    whatever surrounds the entry *)
 Theorem entry_render mx bits local syms pre post (k : nat) :
-  (2 <= bits)%nat -> length syms = bits -> small_syms local syms -> states_num local <= states_num mx ->
+  (1 <= bits)%nat -> length syms = bits -> small_syms local syms -> states_num local <= states_num mx ->
   length pre = (k * bpe_of mx bits)%nat ->
   get_value_at (SigBits mx bits (snd (get_len_and_meta mx bits)) (bpe_of mx bits)
                         (pre ++ wide mx bits local (write_n_state_loop local syms 0 None) ++ post)) k
@@ -398,7 +431,8 @@ Proof. vm_compute. reflexivity. Qed.
 (* the value a VCD bit-vector change denotes: prefix stripped, extended to the declared width *)
 Definition normalize (len : nat) (value : list byte) : outcome (list byte) :=
   do vb <- strip_prefix value;
-  if Nat.eqb (length vb) len then Ok vb
+  if Nat.eqb len 1 then match vb with c :: _ => Ok [c] | [] => Panic end   (* a scalar takes the first character *)
+  else if Nat.eqb (length vb) len then Ok vb
   else do e <- expand_special_vector_cases vb len;
        match e with None => Panic | Some x => Ok x end.
 
@@ -447,33 +481,48 @@ Proof.
     rewrite app_length, repeat_length. unfold byte in *. cbn [length] in *. lia.
 Qed.
 
-(* one successful add_vcd_change on a vector signal appends exactly one stream entry *)
-Lemma add_vcd_change_entry parse_f64 se t value len se' : se_tpe se = EncBits len -> len <> 1%nat ->
+(* one successful add_vcd_change on a bit-vector signal appends exactly one stream entry *)
+Lemma add_vcd_change_entry parse_f64 se t value len se' : se_tpe se = EncBits len ->
   add_vcd_change parse_f64 se t value = Ok se' ->
   exists st chars nums,
     normalize len value = Ok chars /\ length chars = len /\ chars_to_nums chars = Some nums /\
     small_syms st nums /\ Forall (fun v => v <= 8) nums /\
     (forall st', small_syms st' nums -> states_num st <= states_num st') /\
     se_prev se <= t /\
-    se_data se' = se_data se ++ enc_entry (t - se_prev se, st, write_n_state_loop st nums 0 None) /\
+    se_data se' = se_data se ++ enc_entry len (t - se_prev se, st, write_n_state_loop st nums 0 None) /\
+    (len = 1%nat -> st = from_value (hd 0 nums)) /\
     se_tpe se' = se_tpe se /\ se_prev se' = t /\ se_max se' = join (se_max se) st.
 Proof.
-  intros Ht Hl1 H. unfold add_vcd_change, nsub in H. rewrite Ht in H.
+  intros Ht H. unfold add_vcd_change, nsub in H. rewrite Ht in H.
   destruct (N.leb_spec (se_prev se) t) as [Hle|]; [|discriminate]. cbn [bind] in H.
-  unfold normalize.
+  unfold normalize, enc_entry.
   destruct (strip_prefix value) as [vb| |]; try discriminate. cbn [bind] in *.
-  destruct (Nat.eqb_spec len 1) as [|_]; [congruence|].
-  destruct (check_states vb) as [st|] eqn:Ecs; [|discriminate].
-  destruct (check_states_min vb st Ecs) as (nums & Hn & Hs & H8 & Hmin).
-  destruct (chars_to_nums_lookup vb nums Hn) as [Hlen _].
-  destruct (Nat.eqb_spec (length vb) len) as [Hlv|Hlv].
-  - cbn [bind] in H. unfold write_n_state in H. rewrite Hn in H. cbn [bind] in H. inversion H; subst se'; clear H.
-    exists st, vb, nums. cbn [se_data se_prev se_max se_tpe enc_entry]. repeat split; auto.
-  - destruct (expand_special_vector_cases vb len) as [[x|]| |] eqn:Ee; try discriminate. cbn [bind] in *.
-    destruct (expand_keeps_kind vb len st x nums Hn Hs H8 Ee) as (pad & Hx & Hsx & H8x & Hlx).
-    unfold write_n_state in H. rewrite Hx in H. cbn [bind] in H. inversion H; subst se'; clear H.
-    exists st, x, (pad ++ nums). cbn [se_data se_prev se_max se_tpe enc_entry]. repeat split; auto.
-    intros st' Hs'. apply Hmin. now apply Forall_app in Hs' as [_ ?].
+  destruct (Nat.eqb_spec len 1) as [E1|E1].
+  - (* scalar *)
+    destruct vb as [|c r]; [discriminate|].
+    destruct (bit_char_to_num c) as [bv|] eqn:Ec; [|discriminate]. inversion H; subst se'; clear H.
+    destruct (bit_char_facts c bv Ec) as [H8 _].
+    assert (Hsm : bv < 2 ^ sbits (from_value bv)) by (apply from_value_least; [exact H8|lia]).
+    exists (from_value bv), [c], [bv]. cbn [se_data se_prev se_max se_tpe chars_to_nums length hd write_n_state_loop].
+    rewrite Ec. cbn [length N.of_nat]. rewrite N.mul_0_l. cbn [N.modulo N.eqb]. change (0 mod 8 =? 0) with true. cbn iota.
+    rewrite N.mul_0_l, N.add_0_l. cbn [hd].
+    split; [reflexivity|]. split; [now rewrite E1|]. split; [reflexivity|].
+    split; [constructor; [exact Hsm|constructor]|]. split; [constructor; [exact H8|constructor]|].
+    split.
+    { intros st' Hs'. apply Forall_cons_iff in Hs' as [Hs' _]. now apply from_value_least. }
+    repeat split; auto.
+  - destruct (check_states vb) as [st|] eqn:Ecs; [|discriminate].
+    destruct (check_states_min vb st Ecs) as (nums & Hn & Hs & H8 & Hmin).
+    destruct (chars_to_nums_lookup vb nums Hn) as [Hlen _].
+    destruct (Nat.eqb_spec (length vb) len) as [Hlv|Hlv].
+    + cbn [bind] in H. unfold write_n_state in H. rewrite Hn in H. cbn [bind] in H. inversion H; subst se'; clear H.
+      exists st, vb, nums. cbn [se_data se_prev se_max se_tpe]. repeat split; auto. intros E; congruence.
+    + destruct (expand_special_vector_cases vb len) as [[x|]| |] eqn:Ee; try discriminate. cbn [bind] in *.
+      destruct (expand_keeps_kind vb len st x nums Hn Hs H8 Ee) as (pad & Hx & Hsx & H8x & Hlx).
+      unfold write_n_state in H. rewrite Hx in H. cbn [bind] in H. inversion H; subst se'; clear H.
+      exists st, x, (pad ++ nums). cbn [se_data se_prev se_max se_tpe]. repeat split; auto.
+      * intros st' Hs'. apply Hmin. now apply Forall_app in Hs' as [_ ?].
+      * intros E; congruence.
 Qed.
 
 (* ------------------------------------------------------------------ block layout *)
@@ -651,7 +700,7 @@ Definition blk := (list signal_encoder * N * list N * signal_encoder * list sent
 
 Definition blk_ok (id bits : nat) (x : blk) : Prop :=
   let '(sigs, st, ttb, se, es) := x in
-  nth_error sigs id = Some se /\ se_data se = enc_stream es /\
+  nth_error sigs id = Some se /\ se_data se = enc_stream bits es /\
   Forall (wf_sentry (se_max se) bits) es /\ N.of_nat (length (se_data se)) < 4294967264.
 
 Definition blk_block (x : blk) : block := let '(sigs, st, ttb, _, _) := x in block_of sigs st ttb.
@@ -675,45 +724,49 @@ Fixpoint blks_spec (mx : states) (bits : nat) (bl : list blk) (off : N) (canon :
     blks_spec mx bits r (u32_wrap (off + N.of_nat (length ttb))) (load_spec mx bits es off canon)
   end.
 
-Lemma enc_stream_nil_iff es : enc_stream es = [] <-> es = [].
+Lemma enc_entry_nonempty bits e : enc_entry bits e <> [].
 Proof.
-  split; [|now intros ->]. destruct es as [|[[d l] p] r]; [reflexivity|].
-  unfold enc_stream. cbn [map concat enc_entry]. intros H. apply app_eq_nil in H as [H _].
-  apply app_eq_nil in H as [H _]. now apply leb_write_nonempty in H.
+  destruct e as [[d l] p]. unfold enc_entry. destruct (Nat.eqb bits 1); [apply leb_write_nonempty|].
+  intros H. apply app_eq_nil in H as [H _]. now apply leb_write_nonempty in H.
 Qed.
 
-Lemma enc_stream_length es : (length es <= length (enc_stream es))%nat.
+Lemma enc_stream_nil_iff bits es : enc_stream bits es = [] <-> es = [].
 Proof.
-  induction es as [|[[d l] p] r IH]; [cbn; lia|]. unfold enc_stream in *. cbn [map concat enc_entry length].
-  rewrite !app_length. pose proof (leb_write_nonempty (d * 4 + states_num l)).
-  destruct (leb_write (d * 4 + states_num l)); [congruence|]. cbn [length]. lia.
+  split; [|now intros ->]. destruct es as [|e r]; [reflexivity|].
+  unfold enc_stream. cbn [map concat]. intros H. apply app_eq_nil in H as [H _]. now apply enc_entry_nonempty in H.
 Qed.
 
-Definition meta_of (x : blk) (m : N * list byte * enc_meta) : Prop :=
+Lemma enc_stream_length bits es : (length es <= length (enc_stream bits es))%nat.
+Proof.
+  induction es as [|e r IH]; [cbn; lia|]. unfold enc_stream in *. cbn [map concat length].
+  rewrite app_length. pose proof (enc_entry_nonempty bits e). destruct (enc_entry bits e); [congruence|]. cbn [length]. lia.
+Qed.
+
+Definition meta_of (bits : nat) (x : blk) (m : N * list byte * enc_meta) : Prop :=
   let '(_, _, _, se, es) := x in
   em_max (snd m) = se_max se /\
   (match em_comp (snd m) with
    | Compressed ulen => of_option (lz_decompress (snd (fst m)) (N.to_nat ulen))
    | Uncompressed => Ok (snd (fst m))
-   end) = Ok (enc_stream es).
+   end) = Ok (enc_stream bits es).
 
 (* collect_signal_meta_data: one entry per block that holds data of the signal, with the block's
    time index offset *)
-Fixpoint metas_rel (bl : list blk) (off : N) (ms : list (N * list byte * enc_meta)) : Prop :=
+Fixpoint metas_rel (bits : nat) (bl : list blk) (off : N) (ms : list (N * list byte * enc_meta)) : Prop :=
   match bl with
   | [] => ms = []
   | ((_, _, ttb, _, es) as x) :: r =>
     match es with
-    | [] => metas_rel r (u32_wrap (off + N.of_nat (length ttb))) ms
+    | [] => metas_rel bits r (u32_wrap (off + N.of_nat (length ttb))) ms
     | _ => match ms with
            | [] => False
-           | m :: ms' => fst (fst m) = off /\ meta_of x m /\ metas_rel r (u32_wrap (off + N.of_nat (length ttb))) ms'
+           | m :: ms' => fst (fst m) = off /\ meta_of bits x m /\ metas_rel bits r (u32_wrap (off + N.of_nat (length ttb))) ms'
            end
     end
   end.
 
 Lemma collect_meta_spec id bits : forall bl off, Forall (blk_ok id bits) bl ->
-  exists ms, collect_meta (map blk_block bl) id off = Ok ms /\ metas_rel bl off ms.
+  exists ms, collect_meta (map blk_block bl) id off = Ok ms /\ metas_rel bits bl off ms.
 Proof.
   induction bl as [|x r IH]; intros off Hok.
   - exists []. split; reflexivity.
@@ -763,8 +816,8 @@ Lemma wf_sentry_mono mx mx' bits e : states_num mx <= states_num mx' -> wf_sentr
 Proof. destruct e as [[d l] p]. unfold wf_sentry, wf_entry. intros H [(Hb & Hle & Hl) Hlt]. repeat split; try assumption. lia. Qed.
 
 (* the per-block loop of Reader::load_signal over the collected blocks *)
-Lemma load_go_spec bits mx : (2 <= bits)%nat -> forall bl off ms acc canon,
-  metas_rel bl off ms ->
+Lemma load_go_spec bits mx : (1 <= bits)%nat -> forall bl off ms acc canon,
+  metas_rel bits bl off ms ->
   Forall (fun x : blk => let '(_, _, _, se, es) := x in
             Forall (wf_sentry (se_max se) bits) es /\ (es <> [] -> states_num (se_max se) <= states_num mx)) bl ->
   acc_rep (bpe_of mx bits) acc canon ->
@@ -783,14 +836,14 @@ Proof.
       cbn [load_go]. rewrite Hdec. cbn [bind].
       assert (Hwf' : Forall (wf_sentry mx bits) (e0 :: er)).
       { eapply Forall_impl; [|exact Hwfe]. intros e. apply wf_sentry_mono. apply Hmx. discriminate. }
-      destruct (load_fixed_stream mx bits (e0 :: er) (S (length (enc_stream (e0 :: er)))) off acc canon Hwf' Hrep
-                  ltac:(pose proof (enc_stream_length (e0 :: er)); lia)) as (acc1 & H1 & H2 & H3).
+      destruct (load_fixed_stream mx bits (e0 :: er) (S (length (enc_stream bits (e0 :: er)))) off acc canon Hwf' Hrep
+                  ltac:(pose proof (enc_stream_length bits (e0 :: er)); lia)) as (acc1 & H1 & H2 & H3).
       rewrite H1. cbn [bind].
       destruct (IH _ ms' acc1 _ Hrel' Hr H2) as (acc' & Ha & Hb' & Hc).
       exists acc'. split; [exact Ha|]. split; [exact Hb'|congruence].
 Qed.
 
-Lemma metas_rel_max bl : forall off ms mx, metas_rel bl off ms ->
+Lemma metas_rel_max bits bl : forall off ms mx, metas_rel bits bl off ms ->
   Forall (fun x => states_num (em_max (snd x)) <= states_num mx) ms ->
   Forall (fun x : blk => let '(_, _, _, se, es) := x in es <> [] -> states_num (se_max se) <= states_num mx) bl.
 Proof.
@@ -806,7 +859,7 @@ Qed.
 (* Reader::load_signal over any list of finished blocks: the loaded signal holds exactly the
    canonical (de-duplicated, widened) entries of all blocks, in order, with each block's time
    index offset added *)
-Theorem load_signal_blocks id bits bl : (2 <= bits)%nat -> Forall (blk_ok id bits) bl ->
+Theorem load_signal_blocks id bits bl : (1 <= bits)%nat -> Forall (blk_ok id bits) bl ->
   exists mx,
     Forall (fun x : blk => let '(_, _, _, se, es) := x in es <> [] -> states_num (se_max se) <= states_num mx) bl /\
     load_signal lz_decompress (map blk_block bl) id (EncBits bits)
@@ -816,7 +869,7 @@ Theorem load_signal_blocks id bits bl : (2 <= bits)%nat -> Forall (blk_ok id bit
 Proof.
   intros Hb Hok. destruct (collect_meta_spec id bits bl 0 Hok) as (ms & Hcm & Hrel).
   exists (max_states_of ms).
-  pose proof (metas_rel_max bl 0 ms _ Hrel (max_states_ge ms)) as Hmx. split; [exact Hmx|].
+  pose proof (metas_rel_max bits bl 0 ms _ Hrel (max_states_ge ms)) as Hmx. split; [exact Hmx|].
   unfold load_signal. rewrite Hcm. cbn [bind].
   assert (Hwf : Forall (fun x : blk => let '(_, _, _, se, es) := x in
             Forall (wf_sentry (se_max se) bits) es /\ (es <> [] -> states_num (se_max se) <= states_num (max_states_of ms))) bl).
@@ -857,7 +910,7 @@ Qed.
 
 (* iter_changes over a loaded signal whose bytes are the widened entries of `abs` reports, for
    every entry, its time index, the kind it was recorded with and its characters *)
-Theorem observe_entries mx bits (abs : list aentry) : (2 <= bits)%nat -> Forall (aentry_ok mx bits) abs ->
+Theorem observe_entries mx bits (abs : list aentry) : (1 <= bits)%nat -> Forall (aentry_ok mx bits) abs ->
   observe_signal (mk_signal (map fst (map (wide_of mx bits) abs))
                             (SigBits mx bits (snd (get_len_and_meta mx bits)) (bpe_of mx bits)
                                      (concat (map snd (map (wide_of mx bits) abs)))))
